@@ -174,3 +174,31 @@ func VerifC03_SetAddress() {
 	verifAssert(d.method != "BroadcastTo" || d.consumed == -1, "SetAddress: never consumes a datagram")
 	verifReach("c03.SetAddress")
 }
+
+// ---- every reply-bearing operation: a result is only reported for a well-formed reply from the
+// addressed controller, on the broadcast route (one datagram) and on the directed route
+
+func c03AllOps(directed bool) {
+	verifZone(1)
+	ops := vOps()
+	op := ops[nondetEnum("op", len(ops))]
+	id := nondetSerial("id")
+	m := nondetBuffer("dg", c03Max)
+	d := &vDriver{seq: [][]byte{m}, reply: m}
+	u := vClient(d)
+	if directed {
+		u.devices[id] = Device{Name: "alpha", DeviceID: id, Address: types.ControllerAddrFrom(netip.AddrFrom4([4]byte{192, 168, 1, 100}), 60000), Protocol: "udp"}
+	}
+	ok, err := op.call(u, id)
+	verifAssert(d.calls == 1, op.name+": one request")
+	if !c03Mine(m, id) || !c03HeaderOK(m, op.fn) {
+		verifAssert(!ok && err != nil, op.name+": a datagram of the wrong length, serial number, protocol id or function code never yields a result")
+	}
+	if ok {
+		verifAssert(c03Mine(m, id) && c03HeaderOK(m, op.fn), op.name+": a result is only reported for a well-formed reply from the addressed controller")
+	}
+	verifReach("c03.allops")
+}
+
+func VerifC03_AllOpsBroadcast() { c03AllOps(false) }
+func VerifC03_AllOpsDirected()  { c03AllOps(true) }
